@@ -55,7 +55,9 @@ type Op struct {
 	// Release marks operations that can only enable others (unlock, WaitGroup.Done):
 	// they order later operations but are never the first half of a reversible race.
 	Release bool
-	Mu      *MutexState
+	// Announce: first half of RWMutex.Lock (see RWState.Announced)
+	Announce bool
+	Mu       *MutexState
 	RW    *RWState
 	WG    *WGState
 	Cases []Case
@@ -69,6 +71,11 @@ type MutexState struct{ Held bool }
 type RWState struct {
 	Writer  bool
 	Readers int
+	// Announced: a writer has passed the first half of Lock (Go: it holds the writers' mutex
+	// and has announced itself), so new readers block - even while it still waits for the
+	// current readers to leave. This is what makes a recursive RLock deadlock against a
+	// writer, exactly as with sync.RWMutex.
+	Announced bool
 }
 type WGState struct{ N int }
 
@@ -85,11 +92,15 @@ func (t *Thread) forceRelease() {
 	for _, h := range t.heldRW {
 		if h.write {
 			h.st.Writer = false
+			h.st.Announced = false
 		} else if h.st.Readers > 0 {
 			h.st.Readers--
 		}
 	}
-	t.heldMu, t.heldRW = nil, nil
+	for _, a := range t.annRW {
+		a.Announced = false
+	}
+	t.heldMu, t.heldRW, t.annRW = nil, nil, nil
 }
 
 // Unheld is called by the lock shims after a release.
@@ -110,6 +121,11 @@ func UnheldMu(m *MutexState) {
 			}
 		}
 	}
+}
+
+// HoldRW records a read/write hold taken outside dispatch (TryRLock / TryLock).
+func HoldRW(st *RWState, write bool) {
+	S.cur.heldRW = append(S.cur.heldRW, rwHold{st, write})
 }
 
 func UnheldRW(st *RWState, write bool) {
@@ -140,6 +156,7 @@ type Thread struct {
 	Parent int
 	heldMu []*MutexState
 	heldRW []rwHold
+	annRW  []*RWState // write locks this thread is in line for (announced, not yet acquired)
 	// LastRun is the clock value at which the thread last executed (hang detection).
 	LastRun int64
 }
@@ -289,6 +306,7 @@ func Run(choose Chooser, maxSteps int, body func()) (failure string) {
 	S.accs = nil
 	S.addrClass = map[uintptr]uint32{}
 	S.TickNow = false
+	hazards = nil
 	S.MaxStep = maxSteps
 	S.Failure = ""
 	S.FirstPanic = ""
@@ -467,6 +485,26 @@ func Point(op *Op) Result {
 	return me.res
 }
 
+// Hazards: misuse of a synchronisation primitive that the shims notice (e.g. the same
+// object handed back to a sync.Pool twice, so that two later users share it). Harnesses
+// collect them with TakeHazards and report them under the property they endanger.
+var hazards []string
+
+func Hazard(s string) {
+	for _, h := range hazards {
+		if h == s {
+			return
+		}
+	}
+	hazards = append(hazards, s)
+}
+
+func TakeHazards() []string {
+	h := hazards
+	hazards = nil
+	return h
+}
+
 // OnPoint, if set, is called at every decision point before the next transition is chosen
 // (the caller's thread is the only one running): harnesses use it to sample state that
 // only exists between two observable events.
@@ -533,11 +571,17 @@ func enabledAlts() []Alt {
 				alts = append(alts, Alt{T: t})
 			}
 		case OpRLock:
-			if op.Write {
+			switch {
+			case op.Announce:
+				// first half of a write lock: one writer at a time gets this far
+				if !op.RW.Announced {
+					alts = append(alts, Alt{T: t})
+				}
+			case op.Write:
 				if !op.RW.Writer && op.RW.Readers == 0 {
 					alts = append(alts, Alt{T: t})
 				}
-			} else if !op.RW.Writer {
+			case !op.RW.Writer && !op.RW.Announced:
 				alts = append(alts, Alt{T: t})
 			}
 		case OpWait:
@@ -752,12 +796,23 @@ func perform(a Alt) {
 		op.Mu.Held = true
 		t.heldMu = append(t.heldMu, op.Mu)
 	case OpRLock:
-		if op.Write {
+		switch {
+		case op.Announce:
+			op.RW.Announced = true
+			t.annRW = append(t.annRW, op.RW)
+		case op.Write:
 			op.RW.Writer = true
-		} else {
+			t.heldRW = append(t.heldRW, rwHold{op.RW, true})
+			for i, a := range t.annRW {
+				if a == op.RW {
+					t.annRW = append(t.annRW[:i], t.annRW[i+1:]...)
+					break
+				}
+			}
+		default:
 			op.RW.Readers++
+			t.heldRW = append(t.heldRW, rwHold{op.RW, false})
 		}
-		t.heldRW = append(t.heldRW, rwHold{op.RW, op.Write})
 	case OpChan:
 		if a.Case == -1 {
 			t.res = Result{Idx: -1}
